@@ -1,5 +1,6 @@
 import BHS.Props.C04
 import BHS.Props.SqlShape
+import BHS.Props.HeaderSvcGen
 open BHS.Props.C04
 #print axioms C04_anc_iff_chainTo
 #print axioms C04_byhash
@@ -28,3 +29,13 @@ open BHS.Props.C04
 #print axioms C04_common_partial_reachable
 #print axioms C04_root_stored_reachable
 #print axioms BHS.Props.SqlShape.query_statements
+#print axioms BHS.Props.HeaderSvcGen.Gen_ancestors_refines
+#print axioms BHS.Props.HeaderSvcGen.Gen_common_refines
+#print axioms BHS.Props.HeaderSvcGen.Gen_byheight_refines
+#print axioms BHS.Props.HeaderSvcGen.Gen_tips_refines
+#print axioms BHS.Props.HeaderSvcGen.Gen_tip_refines
+#print axioms BHS.Props.HeaderSvcGen.Gen_byhash_refines
+#print axioms BHS.Props.HeaderSvcGen.C04_ancestors_generated
+#print axioms BHS.Props.HeaderSvcGen.C04_common_generated
+#print axioms BHS.Props.HeaderSvcGen.C04_byheight_generated
+#print axioms BHS.Props.HeaderSvcGen.C04_tips_generated
